@@ -304,6 +304,9 @@ func superviseShard(c Check, id string, tier Tier, shard, nshards int, seed uint
 		cmd.Env = append(os.Environ(), "GOMAXPROCS=1", "GOTRACEBACK=single")
 		var stderr bytes.Buffer
 		cmd.Stderr = &limitWriter{w: &stderr, n: 1 << 16}
+		if dumpStatus != "" {
+			cmd.Stderr = os.Stderr
+		}
 		stdout, _ := cmd.StdoutPipe()
 		j.Set(-1, -1)
 		if err := cmd.Start(); err != nil {
